@@ -11,6 +11,7 @@ import (
 	"strings"
 
 	"github.com/xelaj/mtproto/zverif/enum"
+	"github.com/xelaj/mtproto/zverif/freepass"
 	"github.com/xelaj/mtproto/zverif/hs"
 	"github.com/xelaj/mtproto/zverif/ref/authsrv"
 	"github.com/xelaj/mtproto/zverif/ref/tlw"
@@ -129,6 +130,7 @@ func nextPrime(n uint64) uint64 {
 
 func main() {
 	run := vr.New("C06", "exploration")
+	freepass.MaybeReplay(run)
 	run.Rule("complete key exchanges of the real client against reference server R3 (default schedule under the controlled scheduler), followed by the first encrypted request: (a) server alphabets pq(4) x RSA key(3) x group(2) x server_nonce leading-zero class(3) x g_a class(2) x inner-data padding(16) x fingerprint list(3) at <=2 deviations; (b) every client seed in [0,K) of the owned random stream; (c) each of nonce, new_nonce, RSA ciphertext, auth key g^ab, new_nonce_hash1 forced to 1 and 2 leading zero bytes, and the initial salt forced to 1, 2 and 8 leading zero bytes (nonces sharing a prefix) (client draws forced through the owned seam; server secret chosen adaptively after learning g_b); a committed seed table for g_b; non-trivial = the exchange reached dh_gen_ok")
 	run.Assume("reference server R3 (harness/ref/authsrv) with committed RSA-2048 test keys; the client's random draws (nonces, DH exponent, Pollard-rho draws, padding) come from the owned deterministic stream", "leading-zero class coverage is measured and reported (class table), not assumed")
 	r := &runner{run: run, table: classTable{}}
@@ -316,5 +318,6 @@ func finish(run *vr.Run, r *runner) {
 	run.Set("leading_zero_class_table", tab)
 	run.Set("exchanges", r.n)
 	run.Sample(map[string]any{"server": "pq = two primes just below 2^32, RSA key #1, g_a with one leading zero byte", "client_seed": 1})
+	freepass.Run(run, run.ID, freepass.Rounds(run))
 	run.Finish()
 }
